@@ -324,6 +324,16 @@ def oracle_part(ctx):
             want = x0 + M @ (b - A0 @ x0) if nlev > 1 else M @ b
             if _nn(np.linalg.norm(x1 - want)) > tol * (1 + np.linalg.norm(want)):
                 ctx.fail('cycle/%s/not-textbook' % cname, '|solve - (x + M(b-Ax))| = %.3g' % np.linalg.norm(x1 - want), cs)
+            # mixed dtypes: a real right-hand side with a complex guess (complex hierarchy), an integer right-hand side with a
+            # float guess (real hierarchy) -- the guess keeps all its digits
+            if nlev > 1:
+                b_m = (np.real(b).astype(float) if np.iscomplexobj(A0) else np.round(4 * np.real(b)).astype(np.int64))
+                x_m = ml.solve(b_m, x0=x0.copy(), maxiter=1, tol=1e-300, cycle=cname, cycles_per_level=cpl)
+                want_m = x0 + M @ (b_m - A0 @ x0)
+                if _nn(np.linalg.norm(x_m - want_m)) > tol * (1 + np.linalg.norm(want_m)):
+                    ctx.fail('cycle/%s/mixed-dtypes' % cname, 'b of dtype %s, x0 of dtype %s: |solve - (x + M(b-Ax))| = %.3g'
+                             % (b_m.dtype, x0.dtype, np.linalg.norm(x_m - want_m)), cs)
+                ctx.count('mixed-dtypes')
             # k calls == one k-cycle call
             xa = x0.copy()
             for _ in range(3):
